@@ -1077,9 +1077,14 @@ func ruleLifo(c *engine.Context) *report.Rule {
 				}
 				cond, _ := unwrapNot(ifi.Cond)
 				allowed := false
+				if _, _, isTT := typeTestsOf(cond); isTT {
+					allowed = true
+				}
 				switch x := cond.(type) {
 				case *ssa.Extract:
-					_, allowed = x.Tuple.(*ssa.TypeAssert)
+					if _, isTA := x.Tuple.(*ssa.TypeAssert); isTA {
+						allowed = true
+					}
 				case *ssa.UnOp:
 					if base, _, isBool := boolFieldLoad(x); isBool && len(fn.Params) > 0 && base == ssa.Value(fn.Params[0]) {
 						allowed = true
